@@ -1,6 +1,6 @@
 (* Property C11 — clear() empties the cache and leaves it fully usable.
-   Only statements here; proofs are in CacheInv.v. *)
-From StrettoModel Require Import Base Metrics Policy Ttl Store Cache CacheProofs CacheInv.
+   Only statements here; proofs are in CacheInv.v and CacheFresh.v. *)
+From StrettoModel Require Import Base Metrics Sketch Bloom TinyLFU Policy Ttl Store Cache CacheProofs CacheInv CacheMetrics CacheFresh.
 Open Scope N_scope.
 
 (* clear() returns only after the processor has acknowledged it.  In every reachable state (every
@@ -33,3 +33,22 @@ Theorem C11_invariant_is_inductive :
   forall c st l st' o, ClearEmpty st -> cstep c st l = StepOk st' o -> ClearEmpty st'.
 Proof. exact ClearEmpty_step. Qed.
 Print Assumptions C11_invariant_is_inductive.
+
+(* "The cache then behaves like a fresh one" (proofs in CacheFresh.v).  The geometry and parameters
+   of the popularity estimator never change — whatever lookups, aging resets and clears happen ... *)
+Theorem C11_estimator_shape_is_invariant :
+  forall c st l st' o, cstep c st l = StepOk st' o -> tl_shape (s_tlfu st') = tl_shape (s_tlfu st).
+Proof. exact estimator_shape_is_invariant. Qed.
+Print Assumptions C11_estimator_shape_is_invariant.
+
+(* ... so clear() leaves the estimator (count-min rows, doorkeeper, window counter) EXACTLY as the
+   builder made it, together with an empty policy; the acknowledging step (above) then finds the
+   store, the expiry index and the counters empty too: the state a fresh cache starts from. *)
+Theorem C11_clear_restores_the_fresh_estimator :
+  forall c mc ctrs seeds entries locs t0 now st h sig,
+  tl_new ctrs seeds entries locs = Some t0 ->
+  reach c (cinit c mc t0 now) st -> s_pc st = PClearAfterDrain sig ->
+  exists st', proc_step c st h = StepOk st' (mk_out PtProcClearAfterPolicy [] RNone) /\
+    s_tlfu st' = t0 /\ sl_kc (s_slfu st') = [] /\ sl_used (s_slfu st') = 0%Z.
+Proof. exact clear_restores_the_fresh_estimator. Qed.
+Print Assumptions C11_clear_restores_the_fresh_estimator.
